@@ -74,6 +74,7 @@ type Exec struct {
 	zarrSeen map[string]bool
 	heapReads []heapRead
 	rootFrame *Frame
+	inLaw map[string]bool
 	lawState *State
 	accessorState *State // state in which defined accessors are evaluated
 	allFuncs map[string]*ssa.Function
@@ -99,7 +100,7 @@ func NewExec(prog *ssa.Program, db *SpecDB, fset *token.FileSet) *Exec {
 	return &Exec{ctx: NewCtx(), prog: prog, db: db, fset: fset, heapSort: map[string]*Sort{}, written: map[string]bool{}, cellsW: map[*Cell]bool{},
 		strLits: map[string]*Term{}, typeTags: map[string]int{}, tagTypes: map[int]types.Type{}, fnRefs: map[string]*Term{}, fnByRef: map[string]*ssa.Function{},
 		nameCnt: map[string]int{}, trusted: map[string]bool{}, unmod: map[string]bool{}, axiomsOn: map[string]bool{}, safety: true, maxDepth: 8, useContracts: true,
-		closures: map[string]*Value{}, repoPkgs: map[string]bool{}, mkstrSeen: map[string]bool{}, zarrSeen: map[string]bool{}, namedFuns: map[string]*namedFun{}, namedReads: map[string][]string{}, freshRefs: map[string]bool{}, freshNames: map[string]bool{}, writeBases: map[string][]*Term{}}
+		closures: map[string]*Value{}, repoPkgs: map[string]bool{}, mkstrSeen: map[string]bool{}, zarrSeen: map[string]bool{}, namedFuns: map[string]*namedFun{}, inLaw: map[string]bool{}, namedReads: map[string][]string{}, freshRefs: map[string]bool{}, freshNames: map[string]bool{}, writeBases: map[string][]*Term{}}
 }
 
 type Frame struct {
